@@ -38,6 +38,17 @@ def run(chk, replay=None):
         return c01.do_replay(replay)
     quick = chk.tier == "quick"
     progs = corpus(chk) + corelib.gen_programs(chk, 250 if quick else 4000, "gprog", size=30 if quick else 50, allow_params=False)
+    # the same programs in other layouts (comments with multi-byte characters in front of calls, CRLF): acceptance must carry
+    # over to code generation there too (instantiate looks the source text of every tracked call up again)
+    import layout
+    relaid = []
+    for g in progs[: (120 if quick else 1500)]:
+        r = chk.sub_rng("lay/" + g.label)
+        q = Prog(layout.relayout(r, g.text, crlf=r.random() < 0.3, comments=True, comment_rate=0.5), list(g.witnesses), g.label + "/layout")
+        q.fixed = []
+        q.is_layout = True
+        relaid.append(q)
+    progs = progs + relaid
     # D gate: TemplateProgram::new accepts => instantiate(no args) is Ok and commit() is 1 -> 1
     lines = ["(compile %s)" % quote(g.text) for g in progs]
     res = impl("front", lines)
@@ -57,7 +68,7 @@ def run(chk, replay=None):
                           {"program": g.text, "implementation": x, "cmd": "front", "line": ln,
                            "broken": "TemplateProgram::new accepted the text but instantiate/commit failed or panicked (CannotCompile / panic)"})
     # T gate: the dumped AST is well-typed in the model and the model compiles it to the same term
-    corelib.check_terms(chk, [g for g in accepted if not getattr(g, "is_example", False) or "param::" not in g.text])
+    corelib.check_terms(chk, [g for g in accepted if not getattr(g, "is_layout", False) and (not getattr(g, "is_example", False) or "param::" not in g.text)])
     chk.extra["programs"] = len(accepted)
     chk.extra["rule"] = ("texts: the shipped examples, an edge corpus (pattern/type arity, duplicate parameter names, empty aggregates, singleton tuples, list bounds), "
                          "and the generated well-typed family; every accepted text must instantiate to Ok, commit() must not panic (type 1->1), its dumped AST must satisfy Lang/WT.v "
